@@ -17,15 +17,16 @@ package stringlib
 // here for the paths that do not go through strings.Builder: the length of the
 // result is n*len(s) + (n-1)*len(sep) (so an empty s with a separator is not "").
 //@ func rep
-//@   prop C06 C19 C04
+//@   prop C06 C19 C04 C05
 //@   arith int
 //@   requires goFuncPre(t, c) && t.Runtime != nil && c.GoFunction != nil && c.next != nil && len(c.args) == 3
 //@   modifies everything()
 //@   exits ContextTerminationError
 //@   allocs charged slack 0
-//@   loop 1: invariant true
+//@   effects metered-loop 1
+//@   loop 1: invariant 1 <= n && n - 1 <= ghost(mem)   // (C05) the iterations left are covered by the bytes charged before the loop
 //@   assert_before_call StringValue inscope: ln == 1 ==> $s == ls
-//@   assert_before_call StringValue inscope: len($s) == 0 ==> ln == 0 || (ln == 1 && len(ls) == 0) || (len(ls) == 0 && sep == nil) || (ln >= 2 && sep != nil && n == 0)
+//@   assert_before_call StringValue inscope: len($s) == 0 ==> ln == 0 || (ln == 1 && len(ls) == 0) || (len(ls) == 0 && sep == nil) || (len(ls) == 0 && len(sep) == 0) || (ln >= 2 && sep != nil && n == 0)
 
 // string.sub(s, i, j): the bytes from max(1, norm i) to min(#s, norm j), or the
 // empty string; the slice taken is always within the string (bounds obligations
